@@ -238,6 +238,21 @@ func c12(e *Env) {
 					if core.FuncName(w.fn) == al || core.FuncName(top) == al {
 						ok = true
 					}
+					// a private helper that is only ever called from the constructor's call tree is part of it
+					if ctor := e.funcByName(al); ctor != nil && !ok {
+						tree := e.P.Reachable(ctor)
+						if tree[w.fn] {
+							only := true
+							for _, c := range e.P.Callers(w.fn) {
+								if e.P.IsLib(c) && !tree[c] && c != ctor && c.Synthetic == "" {
+									only = false
+								}
+							}
+							if only && !run[w.fn] || only && al == "NewTask" {
+								ok = true
+							}
+						}
+					}
 				}
 				if st, isStore := w.in.(*ssa.Store); isStore && freshBase(st.Addr) {
 					ok = true // composite literal of a fresh object
@@ -262,6 +277,7 @@ func c12(e *Env) {
 	// ---- R6 no go in the wiring phase
 	ob6 := r.Ob("R6", "wiring-phase:no-go", "no goroutine is started by a wiring-phase function (a function that is not itself reachable from Run): goroutines start only once the workflow runs")
 	nGo := 0
+	startSet := p.Reachable(p.DeclaredMethod("scipipe", "Workflow", "Run"), p.DeclaredMethod("scipipe", "Workflow", "RunToProcs"))
 	for _, fn := range p.LibFuncs {
 		for _, b := range fn.Blocks {
 			for _, in := range b.Instrs {
@@ -274,9 +290,8 @@ func c12(e *Env) {
 				for top.Parent() != nil {
 					top = top.Parent()
 				}
-				rp := p.DeclaredMethod("scipipe", "Workflow", "runProcs")
-				if run[fn] || top == rp {
-					continue
+				if run[fn] || startSet[fn] || startSet[top] {
+					continue // run phase, or the start-up code of Workflow.Run / RunTo* itself
 				}
 				// wiring-phase function starting a goroutine
 				o := ob6
@@ -431,3 +446,13 @@ func (e *Env) c12Ownership() {
 }
 
 var _ = types.Typ
+
+// funcByName resolves the short names used in the confinement table.
+func (e *Env) funcByName(name string) *ssa.Function {
+	for _, fn := range e.P.LibFuncs {
+		if core.FuncName(fn) == name {
+			return fn
+		}
+	}
+	return nil
+}
